@@ -497,4 +497,257 @@ theorem ns_prefix_of_common (p1 p2 : Bytes) (S : List Bytes) (h1 : WfNs p1) (h2 
     rw [this]; exact List.prefix_refl _
 
 
+
+theorem longestNs_none (L : List Ns) (q : Bytes) (h : longestNs L q = none) : ∀ n ∈ L, ¬ n.path <+: q := by
+  induction L with
+  | nil => intro n hn; cases hn
+  | cons y L ih =>
+    unfold longestNs at h
+    split at h
+    · split at h <;> cases h
+    · rename_i hn
+      split at h
+      · cases h
+      · rename_i hy
+        intro n hn' hp
+        rcases List.mem_cons.mp hn' with rfl | hn'
+        · exact hy (List.isPrefixOf_iff_prefix.mpr hp)
+        · exact ih hn n hn' hp
+
+theorem longestNs_some (L : List Ns) (q : Bytes) (n : Ns) (h : longestNs L q = some n) :
+    n ∈ L ∧ n.path <+: q ∧ ∀ n' ∈ L, n'.path <+: q → n'.path.length ≤ n.path.length := by
+  induction L generalizing n with
+  | nil => simp [longestNs] at h
+  | cons x L ih =>
+    unfold longestNs at h
+    split at h
+    · rename_i b hb
+      obtain ⟨hb1, hb2, hb3⟩ := ih b hb
+      split at h
+      · rename_i hc
+        injection h with h; subst h
+        refine ⟨List.mem_cons_self, List.isPrefixOf_iff_prefix.mp hc.1, ?_⟩
+        intro n' hn' hp
+        rcases List.mem_cons.mp hn' with rfl | hn'
+        · exact Nat.le_refl _
+        · exact Nat.le_trans (hb3 n' hn' hp) (Nat.le_of_lt hc.2)
+      · rename_i hc
+        injection h with h; subst h
+        refine ⟨List.mem_cons_of_mem _ hb1, hb2, ?_⟩
+        intro n' hn' hp
+        rcases List.mem_cons.mp hn' with rfl | hn'
+        · by_cases h1 : n'.path.isPrefixOf q = true
+          · have : ¬ (b.path.length < n'.path.length) := fun h2 => hc ⟨h1, h2⟩
+            omega
+          · exact absurd (List.isPrefixOf_iff_prefix.mpr hp) h1
+        · exact hb3 n' hn' hp
+    · rename_i hn
+      split at h
+      · rename_i hc
+        injection h with h; subst h
+        refine ⟨List.mem_cons_self, List.isPrefixOf_iff_prefix.mp hc, ?_⟩
+        intro n' hn' hp
+        rcases List.mem_cons.mp hn' with rfl | hn'
+        · exact Nat.le_refl _
+        · exact absurd hp (longestNs_none L q hn n' hn')
+      · cases h
+
+/-- namespace table well-formedness kept by every history: paths are non-empty and pairwise distinct -/
+def NsWf (s : St) : Prop :=
+  (∀ a ∈ s.nss, a.path ≠ []) ∧ (∀ a ∈ s.nss, ∀ b ∈ s.nss, a.path = b.path → a = b)
+
+/-- a sealed own-barrier namespace at or above `q` makes `q` unroutable -/
+theorem routable_no_sealed_above (s : St) (hwf : NsWf s) (q : Bytes) (hr : routable s q = true) :
+    ∀ a ∈ s.nss, a.sealable = true → a.sealed = true → ¬ a.path <+: q := by
+  intro a ha hsl hsd hp
+  unfold routable at hr
+  have h1 : underSealed s q = false := by cases h : underSealed s q <;> simp_all
+  have h2 : nsSealed s q = false := by cases h : nsSealed s q <;> simp_all
+  by_cases hq : a.path = q
+  · -- the nearest own-barrier namespace of `q` is `a` itself
+    unfold nsSealed at h2
+    have haL : a ∈ (allNs s).filter (fun n => n.sealable || n.path == []) := by
+      rw [List.mem_filter]; exact ⟨List.mem_cons_of_mem _ ha, by simp [hsl]⟩
+    cases hl : longestNs ((allNs s).filter (fun n => n.sealable || n.path == [])) q with
+    | none => exact longestNs_none _ _ hl a haL hp
+    | some b =>
+      rw [hl] at h2
+      obtain ⟨hb1, hb2, hb3⟩ := longestNs_some _ _ _ hl
+      have hlen := hb3 a haL hp
+      have hbq : b.path = q := by
+        rw [hq] at hlen
+        exact List.IsPrefix.eq_of_length_le hb2 hlen
+      have hbmem := (List.mem_filter.mp hb1).1
+      rcases List.mem_cons.mp hbmem with hb | hb
+      · -- the root entry has the empty path, `a` has not
+        rw [hb] at hbq; simp at hbq
+        exact hwf.1 a ha (by rw [hq, ← hbq])
+      · have := hwf.2 a ha b hb (by rw [hq, hbq])
+        rw [← this] at h2
+        simp at h2; rw [hsd] at h2; cases h2
+  · unfold underSealed at h1
+    have : (s.nss.any fun n => n.sealable && n.sealed && n.path.isPrefixOf q && n.path != q) = true := by
+      rw [List.any_eq_true]
+      exact ⟨a, ha, by simp [hsl, hsd, List.isPrefixOf_iff_prefix.mpr hp, hq]⟩
+    rw [this] at h1; cases h1
+
+theorem sealNs_covers (s : St) (p : Bytes) :
+    ∀ n ∈ (sealNs s p).nss, n.sealable = true → p <+: n.path → n.sealed = true := by
+  intro n hn hsl hp
+  unfold sealNs at hn
+  simp only [List.mem_map] at hn
+  obtain ⟨m, _, rfl⟩ := hn
+  split
+  · rfl
+  · rename_i hc
+    split at hsl <;> split at hp <;> simp_all [List.isPrefixOf_iff_prefix]
+
+theorem unsealNs_other (s : St) (p : Bytes) (c : Ns) (hc : c ∈ s.nss) (hne : c.path ≠ p) : c ∈ (unsealNs s p).nss := by
+  unfold unsealNs
+  simp only [List.mem_map]
+  exact ⟨c, hc, by simp [hne]⟩
+
+theorem sealNs_keeps_sealed (s : St) (p : Bytes) (c : Ns) (hc : c ∈ s.nss) (hs : c.sealed = true) : c ∈ (sealNs s p).nss := by
+  unfold sealNs
+  simp only [List.mem_map]
+  refine ⟨c, hc, ?_⟩
+  split
+  · cases c; simp_all
+  · rfl
+
+theorem backend_nss (s : St) (t : Tok) (op : OpKind) (skey : Bytes) (routed : Routed) (pre : List Touch) :
+    (backend s t op skey routed pre).1.nss = s.nss := by
+  have hso : ∀ (tgt : Target) (kind : Kind) (vk rk : Bytes) (w : Nat) (s' : St) (o : Outcome) (tch : Touch),
+      storageOp s tgt kind vk rk w = some (s', o, tch) → s'.nss = s.nss := by
+    intro tgt kind vk rk w s' o tch h
+    unfold storageOp at h
+    split at h
+    · cases h
+    · simp only at h
+      cases kind <;> simp only at h
+      · split at h <;> (injection h with h; injection h with h _; subst h; rfl)
+      · injection h with h; injection h with h _; subst h; rfl
+      · injection h with h; injection h with h _; subst h; rfl
+      · injection h with h; injection h with h _; subst h; rfl
+  unfold backend
+  split
+  · rfl
+  · split
+    · rfl
+    · split
+      · rfl
+      · rename_i hs; exact hso _ _ _ _ _ _ _ _ hs
+  · split
+    · rfl
+    · split
+      · rfl
+      · rename_i hs; exact hso _ _ _ _ _ _ _ _ hs
+
+theorem request_nss (s : St) (t : Tok) (ctx : Option Bytes) (hdr path : Bytes) (op : OpKind) (skey : Bytes) :
+    (request s t ctx hdr path op skey).1.nss = s.nss := by
+  unfold request
+  split
+  · rfl
+  · simp only
+    split
+    · rfl
+    · split
+      · rfl
+      · exact backend_nss _ _ _ _ _ _
+
+theorem NsWf_map (s : St) (f : Ns → Ns) (hf : ∀ n, (f n).path = n.path) (h : NsWf s) :
+    NsWf { s with nss := s.nss.map f } := by
+  constructor
+  · intro a ha
+    simp only [List.mem_map] at ha
+    obtain ⟨a0, ha0, rfl⟩ := ha
+    rw [hf]; exact h.1 a0 ha0
+  · intro a ha b hb hab
+    simp only [List.mem_map] at ha hb
+    obtain ⟨a0, ha0, rfl⟩ := ha
+    obtain ⟨b0, hb0, rfl⟩ := hb
+    rw [hf, hf] at hab
+    rw [h.2 a0 ha0 b0 hb0 hab]
+
+theorem stepEv_wf (s : St) (ev : Ev) (h : NsWf s) : NsWf (stepEv s ev) := by
+  cases ev with
+  | addNs p sl =>
+    simp only [stepEv, addNs]
+    split
+    · exact h
+    · rename_i hc
+      have hnone : ∀ m ∈ allNs s, ¬ p <+: m.path := by
+        intro m hm hp
+        apply hc
+        rw [List.any_eq_true]
+        exact ⟨m, hm, List.isPrefixOf_iff_prefix.mpr hp⟩
+      constructor
+      · intro a ha
+        simp only [List.mem_append, List.mem_singleton] at ha
+        rcases ha with ha | rfl
+        · exact h.1 a ha
+        · intro hp
+          simp only at hp
+          exact hnone _ List.mem_cons_self (by rw [hp]; exact List.nil_prefix)
+      · intro a ha b hb hab
+        simp only [List.mem_append, List.mem_singleton] at ha hb
+        rcases ha with ha | rfl <;> rcases hb with hb | rfl
+        · exact h.2 a ha b hb hab
+        · simp only at hab
+          exact absurd (by rw [hab]; exact List.prefix_refl _) (hnone a (List.mem_cons_of_mem _ ha))
+        · simp only at hab
+          exact absurd (by rw [← hab]; exact List.prefix_refl _) (hnone b (List.mem_cons_of_mem _ hb))
+        · rfl
+  | sealEv p =>
+    simp only [stepEv, sealOp]
+    split
+    · exact h
+    · simp only [if_true]
+      exact NsWf_map s _ (by intro n; split <;> rfl) h
+  | unsealEv p =>
+    simp only [stepEv, sealOp]
+    split
+    · exact h
+    · simp only [Bool.false_eq_true, if_false]
+      exact NsWf_map s _ (by intro n; split <;> rfl) h
+  | req t ctx hdr path op skey =>
+    simp only [stepEv]
+    have := request_nss s t ctx hdr path op skey
+    exact ⟨by rw [this]; exact h.1, by rw [this]; exact h.2⟩
+  | setup m tk => exact h
+
+theorem runEvs_wf (evs : List Ev) (s : St) (h : NsWf s) : NsWf (runEvs s evs) := by
+  induction evs generalizing s with
+  | nil => exact h
+  | cons e es ih => exact ih _ (stepEv_wf s e h)
+
+/-- a sealed own-barrier namespace stays sealed through every history without an unseal of ITSELF -/
+theorem stays_sealed (evs : List Ev) (s : St) (c : Ns) (hc : c ∈ s.nss) (hs : c.sealed = true)
+    (hno : ∀ e ∈ evs, e ≠ Ev.unsealEv c.path) : c ∈ (runEvs s evs).nss := by
+  induction evs generalizing s with
+  | nil => exact hc
+  | cons e es ih =>
+    apply ih _ _ (fun e' he' => hno e' (List.mem_cons_of_mem _ he'))
+    have hne := hno e List.mem_cons_self
+    cases e with
+    | addNs p sl =>
+      simp only [stepEv, addNs]
+      split
+      · exact hc
+      · exact List.mem_append_left _ hc
+    | sealEv p =>
+      simp only [stepEv, sealOp]
+      split
+      · exact hc
+      · exact sealNs_keeps_sealed s p c hc hs
+    | unsealEv p =>
+      simp only [stepEv, sealOp]
+      split
+      · exact hc
+      · exact unsealNs_other s p c hc (fun h => hne (by rw [h]))
+    | req t ctx hdr path op skey =>
+      simp only [stepEv]; rw [request_nss]; exact hc
+    | setup m tk => exact hc
+
+
 end Obao.Confine
